@@ -336,8 +336,8 @@ def correspondence(ctx):
     t1 = time.time()
     # (b) real abrupt process exits: a forked child per crash point (both flavours) + normal close, for as many
     #     sequences (in order) as fit the time budget, at least `min_cases`
-    res_fork = run_cases([(i, ops, "all") for i, ops in enumerate(seqs)], budget_s=ctx.n(45, 420),
-                         min_cases=len(corpus) + ctx.n(16, 300))
+    res_fork = run_cases([(i, ops, "all") for i, ops in enumerate(seqs)], budget_s=ctx.n(30, 200),
+                         min_cases=len(corpus) + ctx.n(16, 96))
     ctx.note(f"C08 correspondence: snapshots of {len(seqs)} sequences in {t1 - t0:.1f}s, real process exits for "
              f"{len(res_fork)} sequences in {time.time() - t1:.1f}s")
     res = res_snap + res_fork
@@ -356,6 +356,7 @@ def correspondence(ctx):
     dis, evals, dist = [], 0, {"before": 0, "after": 0, "close": 0, "snap": 0}
     exitcodes = {}
     nontriv = 0
+    distinct = set()
     for (a, n, ndry), c, r in zip(spans, impl_all, meta):
         evals += 1
         dist[c["mode"]] += 1
@@ -375,7 +376,8 @@ def correspondence(ctx):
         if bad is None and c["mode"] == "before" and died_model != died_impl:
             bad = (f"exit={c['exit']}", f"model dead={died_model}")
         if c["k"] is not None and 0 < c["k"] < total:
-            nontriv += 1
+            distinct.add((json.dumps(r["ops"]), c["k"], c["mode"]))
+            nontriv = len(distinct)
         if bad:
             dis.append({"input": {"ops": r["ops"], "k": c["k"], "mode": c["mode"]}, "model": bad[1], "impl": bad[0]})
     # call counts agree (model's jrn.calls vs the proxy's count) – on the no-crash run
@@ -508,15 +510,15 @@ def check_case(r):
 
 
 def oracle(ctx, disagreements, broken):
-    seqs = [WITNESS] + load_corpus()
+    seqs = [WITNESS]
     for d in disagreements[:20]:
         if isinstance(d.get("input"), dict) and "ops" in d["input"]:
             seqs.append(d["input"]["ops"])
     nreal = len(seqs)
     n = ctx.n(60, 300) * (8 if broken else 1)
-    seqs += [gen_ops(ctx.rng, ctx.n(4, 6)) for _ in range(n)]
+    seqs += [gen_ops(ctx.rng, ctx.n(4, 6)) for _ in range(n)] + load_corpus()
     # real process exits for the witness / corpus / disagreeing inputs (and a few fresh ones), snapshots for the rest
-    nreal += ctx.n(2, 20) * (4 if broken else 1)
+    nreal += ctx.n(2, 6) * (4 if broken else 1)
     res = run_cases([(i, ops, "all") for i, ops in enumerate(seqs[:nreal])])
     res += run_cases([(i, ops, "snap") for i, ops in enumerate(seqs[nreal:])])
     points = 0
